@@ -567,6 +567,13 @@ def typing_programs():
                         Print(Mem(V("r"), "start"), Mem(V("r"), "end"), MCall(V("r"), "rev"), MCall(V("r"), "diff")),
                         Print(MCall(V("o"), "unwrap"), MCall(V("o"), "is_some"), MCall(V("o"), "unwrap_or", I(0)), MCall(V("o"), "expect", S("m"))),
                         Print(MCall(V("f"), "round"), MCall(V("f"), "is_int"), MCall(I(3), "to_string"), MCall(I(3), "to_range"), MCall(B(True), "to_string"))))
+    two = {"inc": Fn(["n"], Block([], Bin("+", V("n"), I(1))), "int", ["int"]), "dec": Fn(["n"], Block([], Bin("-", V("n"), I(1))), "int", ["int"])}
+    add("fn_values_in_list", dict(two, main=Fn([], Block([Let("l", List(V("inc"), V("dec"), FnLit(["n"], Block([], Bin("*", V("n"), I(2))), "int"))),
+                                                          Print(CallV(Idx(V("l"), I(1)), I(5))), For("g", V("l"), Block([Print(Call("g", I(1)))])),
+                                                          Let("o", Obj(a=V("inc"), b=List(V("dec")))), Print(CallV(Idx(Mem(V("o"), "b"), I(0)), I(3)))]))))
+    add("fn_value_assigned", dict(two, main=Fn([], Block([Let("f", V("inc")), Print(Call("f", I(1))), Expr(Asg(V("f"), V("dec"))), Print(Call("f", I(1))),
+                                                          Let("l", List(V("inc"))), Expr(Asg(Idx(V("l"), I(0)), V("dec"))), Print(CallV(Idx(V("l"), I(0)), I(1))),
+                                                          Let("o", Obj(g=V("inc"))), Expr(Asg(Mem(V("o"), "g"), V("dec"))), Print(CallV(Mem(V("o"), "g"), I(9)))]))))
     add("fn_values", {"apply": Fn(["f", "x"], Block([], CallV(V("f"), V("x"))), "int", ["fn(a: int) -> int", "int"]),
                       "twice": Fn(["a"], Block([], Bin("*", V("a"), I(2))), "int"),
                       "mk": Fn([], Block([], FnLit(["a"], Block([], Bin("+", V("a"), I(1))), "int")), "fn(a: int) -> int"),
